@@ -603,6 +603,12 @@ func runC20(ctx *common.Ctx) error {
 			var o mstore.Op
 			for {
 				o = genOp(rng, d, nlits)
+				if cs.Dedup && (o.Kind == "copy" || o.Kind == "move") {
+					// the scripted remote is not transactional: a label / move call failing after other remote calls of the same
+					// command succeeded would leave it with a different idea of where the messages are than gluon (rolled back),
+					// and its de-duplication answers would no longer be the ones the model computes
+					o.LabelOK = true
+				}
 				if o.Kind == "restart" {
 					if restarts >= 2 {
 						continue
